@@ -201,7 +201,7 @@ package pmm
 //@   raw region
 //@   rawstores
 //@   requires alloc != nil && pageSizeMinus1 == 4095 && poolIndex >= 0 && addrof(region) < 0x1000000000000 && regSane(addrof(region))
-//@   requires mem32(addrof(region)+16) == 1 ==> poolIndex < len(alloc.pools) && regStart(addrof(region)) <= regEnd(addrof(region))
+//@   requires mem32(addrof(region)+16) == 1 ==> poolIndex < len(alloc.pools) && regStart(addrof(region)) <= regEnd(addrof(region)) && regEnd(addrof(region)) < 0x10000000000000
 //@   modifies poolIndex, bitmapStartAddr, framePool.startFrame, framePool.endFrame, framePool.freeCount, framePool.freeBitmap, reflect.SliceHeader.Data, reflect.SliceHeader.Len, reflect.SliceHeader.Cap
 //@   ensures goes: cont
 //@   ensures skip: mem32(addrof(region)+16) != 1 ==> poolIndex == old(poolIndex) && bitmapStartAddr == old(bitmapStartAddr)
